@@ -218,30 +218,30 @@ fn mark_csr_segment_pages(
     meta_page_id: PageId,
     reachable: &mut BTreeSet<PageId>,
 ) -> Result<()> {
-    const META_MAGIC: [u8; 8] = *b"NDBCSRv1";
+    // Must match the layout written by `csr::encode_meta` (v2: forward and reverse index blobs).
+    const META_MAGIC: [u8; 8] = *b"NDBCSRv2";
+    const COUNTS_OFFSET: usize = 64;
+    const PAGE_LISTS_OFFSET: usize = 80;
 
     let meta = pager.read_page(meta_page_id)?;
     if meta[0..8] != META_MAGIC {
         return Err(Error::WalProtocol("invalid csr meta magic"));
     }
 
-    let offsets_page_count = u32::from_le_bytes(meta[40..44].try_into().unwrap()) as usize;
-    let edges_page_count = u32::from_le_bytes(meta[44..48].try_into().unwrap()) as usize;
+    // Four u32 page counts: offsets, edges, in_offsets, in_edges; their page-id lists follow back to back.
+    let mut total_pages = 0usize;
+    for i in 0..4 {
+        let at = COUNTS_OFFSET + i * 4;
+        total_pages += u32::from_le_bytes(meta[at..at + 4].try_into().unwrap()) as usize;
+    }
 
-    let needed = 48usize + (offsets_page_count + edges_page_count) * 8;
+    let needed = PAGE_LISTS_OFFSET + total_pages * 8;
     if needed > PAGE_SIZE {
         return Err(Error::WalProtocol("csr meta page overflow"));
     }
 
-    let mut off = 48usize;
-    for _ in 0..offsets_page_count {
-        let id = u64::from_le_bytes(meta[off..off + 8].try_into().unwrap());
-        off += 8;
-        if id != 0 {
-            reachable.insert(PageId::new(id));
-        }
-    }
-    for _ in 0..edges_page_count {
+    let mut off = PAGE_LISTS_OFFSET;
+    for _ in 0..total_pages {
         let id = u64::from_le_bytes(meta[off..off + 8].try_into().unwrap());
         off += 8;
         if id != 0 {
